@@ -29,7 +29,7 @@ func init() {
 			st := &c03State{}
 			hist := &byteHistory
 			unit.Each(func(b []byte) bool {
-				hist.begin(w, b, unit.Name)
+				b = hist.begin(w, b, unit.Name)
 				c03Check(w, st, b, unit.Name)
 				hist.end(histOK)
 				return !w.Expired()
